@@ -317,7 +317,7 @@ func genReadOnly(c *Case, r *simrt.Rand, tier string) {
 	ro.Backing = "store"
 	ro.ReadOnly = true
 	ro.MergeOp = c.Opts.MergeOp
-	c.Prog = append(c.Prog, Op{Kind: "roOps", O: &ro, N: r.Intn(6), M: r.Intn(6), Prog: nil})
+	c.Prog = append(c.Prog, Op{Kind: "roOps", O: &ro, N: r.Intn(6), M: r.Intn(7), Prog: nil})
 	c.ROProg = prog
 }
 
@@ -328,6 +328,10 @@ func hashDir(dir string) (map[string]string, error) {
 		return nil, err
 	}
 	for _, en := range ents {
+		if en.IsDir() {
+			out[en.Name()] = "directory"
+			continue
+		}
 		b, err := os.ReadFile(filepath.Join(dir, en.Name()))
 		if err != nil {
 			return nil, err
@@ -374,6 +378,7 @@ func (e *Exec) readOnlyOps(op Op) {
 	// directory variant
 	img := newDisk()
 	variant := "as-left"
+	var junkDirs []string
 	// need: the prefix the directory is known to hold (what the store had
 	// exposed before it was closed; for a crash image the last round that had
 	// completed before the crash point - process-kill model, operations in order)
@@ -441,11 +446,19 @@ func (e *Exec) readOnlyOps(op Op) {
 	case 5:
 		img = newDisk()
 		variant = "empty-directory"
+	case 6:
+		// junk sub-directories named like data files (one of them like the newest)
+		junkDirs = []string{"data-00000000000000fd.moss", "data-y.moss"}
+		variant += "+junk-directories"
 	}
 	roDir := e.fs.Dir + "-ro"
 	rwDir := e.fs.Dir + "-rw"
 	if img.materialise(roDir) != nil || img.materialise(rwDir) != nil {
 		return
+	}
+	for _, jd := range junkDirs {
+		os.Mkdir(filepath.Join(roDir, jd), 0700)
+		os.Mkdir(filepath.Join(rwDir, jd), 0700)
 	}
 	defer os.RemoveAll(roDir)
 	defer os.RemoveAll(rwDir)
@@ -606,6 +619,11 @@ func (e *Exec) readOnlyOps(op Op) {
 		simrt.Quiesce(20000, 2)
 	} else if expect != nil {
 		e.probe("ro-open-fails-rw-opens")
+		if rofs.FaultSeen == 0 {
+			// no injected failure, and a read-write open of a copy serves
+			// content: the persisted content is there and must be served
+			fail("ro-open-error", "the open fails (%v) although a read-write open of a copy of the directory succeeds", err)
+		}
 	} else if need > 0 && rofs.FaultSeen == 0 && op.M != 4 && op.M != 5 {
 		// neither opens, although a persistence round had completed in this directory
 		fail("ro-open-error", "the open fails (%v), and so does a read-write open of a copy, although the directory holds the completed round of prefix %d", err, need)
